@@ -24,12 +24,22 @@ CONSTANTS Chans,        \* channel ids (subset of {1, 2})
           Cuts,         \* budget of transport cuts (0 or 1)
           ConnOps,      \* TRUE: connection-level close / abort operations are enabled
           WithData,     \* TRUE: data / pause / resume operations are enabled
+          Win,          \* 0: flow control not modelled (the window is never exhausted);
+                        \* n > 0: every channel direction starts with a window of n chunks
+          FlowVariant,  \* "none" (as coded) | sensitivity variants:
+                        \*   "adj_open_only"  WINDOW_ADJUST refused once the peer has sent EOF
+                        \*   "close_forgets"  close() while an EOF waits behind unsent data is not armed
+                        \*   "no_reply_closing"  (pre-repair, finding F28) no reply to a channel request
+                        \*                    while a close waits for unsent data
           FailReqOnClose,   \* TRUE: an incoming CLOSE fails outstanding channel requests (repaired code)
           ResolveOnConnCleanup  \* FALSE: sensitivity variant (connection clean-up forgets open waiters)
 
 Sides == {"c", "s"}
+Flow == Win > 0
 Other(x) == IF x = "c" THEN "s" ELSE "c"
 Msg(t, ch) == [t |-> t, ch |-> ch]
+Adj(ch, n) == [t |-> "ADJ", ch |-> ch, n |-> n]
+Min(a, b) == IF a < b THEN a ELSE b
 
 VARIABLES s, lbl,
           script   \* history: labels of all steps except deferred callbacks (for replay)
@@ -48,6 +58,10 @@ Init ==
              hasSess |-> PerChan(FALSE),      \* a session is attached
              reading |-> PerChan("starting"), \* _recv_paused: "starting" | "reading" | "paused"
              rbufN |-> PerChan(0),            \* chunks buffered in the channel
+             swin |-> PerChan(0),             \* _send_window (chunks), meaningful when Flow
+             sbufN |-> PerChan(0),            \* chunks waiting in _send_buf for window
+             rwin |-> PerChan(0),             \* _recv_window
+             closeReq |-> PerChan(FALSE),     \* the application called close() / abort()
              log |-> PerChan(<<>>),           \* session callbacks
              closeEv |-> PerChan(FALSE),      \* channel close event set
              phase |-> [c \in Chans |-> "none"],
@@ -70,11 +84,64 @@ CloseMsgs(x, ch) == IF s.ss[x][ch] # "closed" /\ s.reg[x][ch] THEN <<Msg("CLOSE"
 Logged(x, ch, names) == IF s.hasSess[x][ch] THEN s.log[x][ch] \o names ELSE s.log[x][ch]
 Rep(n, v) == [i \in 1..n |-> v]
 
-Pre(x, ch) == <<s.ss[x][ch], s.rs[x][ch], s.reading[x][ch], s.rbufN[x][ch] > 0>>
+Pre(x, ch) == <<s.ss[x][ch], s.rs[x][ch], s.reading[x][ch], s.rbufN[x][ch] > 0, s.sbufN[x][ch] > 0>>
 
 Step(new, l) == /\ s' = new /\ lbl' = l
                 /\ script' = IF l[1] = "run" THEN script ELSE Append(script, l)
 Op(new, l) == Step([new EXCEPT !.nops = s.nops + 1], l)
+
+-----------------------------------------------------------------------------
+(* Flow control (channel.py _flush_send_buf, _deliver_data, _process_window_adjust) *)
+
+\* _flush_send_buf on side x: as many buffered chunks as the window allows go out; once the
+\* buffer is empty a pending EOF or CLOSE follows
+FlushSend(st, x, ch) ==
+    LET k == IF Flow THEN Min(st.sbufN[x][ch], st.swin[x][ch]) ELSE st.sbufN[x][ch]
+        left == st.sbufN[x][ch] - k
+        ss0 == st.ss[x][ch]
+        fin == IF left = 0 /\ ss0 = "eof_pending" THEN <<Msg("EOF", ch)>>
+               ELSE IF left = 0 /\ ss0 = "close_pending" THEN <<Msg("CLOSE", ch)>> ELSE <<>>
+    IN [st EXCEPT !.sbufN[x][ch] = left,
+                  !.swin[x][ch] = IF Flow THEN @ - k ELSE @,
+                  !.ss[x][ch] = IF left = 0 /\ ss0 = "eof_pending" THEN "eof"
+                                ELSE IF left = 0 /\ ss0 = "close_pending" THEN "closed" ELSE ss0,
+                  !.net[x] = IF st.up[x] THEN @ \o Rep(k, Msg("DATA", ch)) \o fin ELSE @]
+
+\* n chunks handed to the session one after the other, starting from receive window rw
+\* (_deliver_data): <<window afterwards, WINDOW_ADJUST amounts sent>>
+RECURSIVE Consume(_, _)
+Consume(rw, n) ==
+    IF n = 0 \/ ~Flow THEN <<rw, <<>>>>
+    ELSE LET r1 == rw - 1 IN
+         IF 2 * r1 < Win
+         THEN LET rest == Consume(Win, n - 1) IN <<rest[1], <<Win - r1>> \o rest[2]>>
+         ELSE Consume(r1, n - 1)
+Consumed(st, x, ch, n) ==
+    LET c == Consume(st.rwin[x][ch], n) IN
+    [st EXCEPT !.rwin[x][ch] = c[1],
+               \* (after the own CLOSE nothing more goes out on the channel: _send_chan is None)
+               !.net[x] = IF st.up[x] /\ st.ss[x][ch] # "closed"
+                          THEN @ \o [i \in 1..Len(c[2]) |-> Adj(ch, c[2][i])] ELSE @]
+
+\* close() / abort() as a state update (also used by create() when the request fails)
+CloseT(st, x, ch, how) ==
+    LET sent == IF st.ss[x][ch] \in {"close_pending", "closed"} THEN st
+                ELSE IF FlowVariant = "close_forgets" /\ how = "close" /\ st.ss[x][ch] = "eof_pending"
+                THEN st
+                ELSE IF how = "abort"
+                THEN \* _close_send: unsent data discarded, CLOSE at once
+                     [st EXCEPT !.sbufN[x][ch] = 0, !.ss[x][ch] = "closed",
+                                !.net[x] = IF st.up[x] /\ st.reg[x][ch]
+                                           THEN Append(@, Msg("CLOSE", ch)) ELSE @]
+                ELSE \* CLOSE only after the unsent data
+                     FlushSend([st EXCEPT !.ss[x][ch] = "close_pending"], x, ch)
+        rs0 == st.rs[x][ch]
+    IN \* _discard_recv (only if the receive side is not closed yet): buffer dropped and
+       \* _recv_paused = False, even if reading never started
+       [sent EXCEPT !.rbufN[x][ch] = 0,
+                    !.reading[x][ch] = IF rs0 # "closed" THEN "reading" ELSE @,
+                    !.rs[x][ch] = IF rs0 = "close_pending" THEN "closed" ELSE @,
+                    !.ready = IF rs0 = "close_pending" THEN Append(@, <<x, "chan", ch>>) ELSE @]
 
 -----------------------------------------------------------------------------
 (* Application operations (external; only when the loop is idle) *)
@@ -87,12 +154,11 @@ Open(ch) ==
 
 WriteEOF(x, ch) ==
     /\ Idle /\ s.nops < MaxOps /\ s.ss[x][ch] = "open" /\ s.hasSess[x][ch]
-    /\ Op([s EXCEPT !.ss[x][ch] = "eof", !.net[x] = Out(x, <<Msg("EOF", ch)>>)],
-          <<"weof", x, ch, Pre(x, ch)>>)
+    /\ Op(FlushSend([s EXCEPT !.ss[x][ch] = "eof_pending"], x, ch), <<"weof", x, ch, Pre(x, ch)>>)
 
 WriteData(x, ch) ==
     /\ WithData /\ Idle /\ s.nops < MaxOps /\ s.ss[x][ch] = "open" /\ s.hasSess[x][ch]
-    /\ Op([s EXCEPT !.net[x] = Out(x, <<Msg("DATA", ch)>>)], <<"wdata", x, ch, Pre(x, ch)>>)
+    /\ Op(FlushSend([s EXCEPT !.sbufN[x][ch] = @ + 1], x, ch), <<"wdata", x, ch, Pre(x, ch)>>)
 
 Pause(x, ch) ==
     /\ WithData /\ Idle /\ s.nops < MaxOps /\ s.hasSess[x][ch] /\ s.reading[x][ch] = "reading"
@@ -106,9 +172,10 @@ Flushed(st, x, ch) ==
                ELSE IF rs0 = "close_pending" THEN "closed" ELSE rs0
         names == Rep(n, "data_received") \o
                  (IF rs0 = "eof_pending" THEN <<"eof_received">> ELSE <<>>)
-    IN [st EXCEPT !.rbufN[x][ch] = 0, !.rs[x][ch] = rs1,
-                  !.log[x][ch] = IF st.hasSess[x][ch] THEN @ \o names ELSE @,
-                  !.ready = IF rs0 = "close_pending" THEN Append(@, <<x, "chan", ch>>) ELSE @]
+    IN Consumed([st EXCEPT !.rbufN[x][ch] = 0, !.rs[x][ch] = rs1,
+                           !.log[x][ch] = IF st.hasSess[x][ch] THEN @ \o names ELSE @,
+                           !.ready = IF rs0 = "close_pending" THEN Append(@, <<x, "chan", ch>>) ELSE @],
+                x, ch, n)
 
 Resume(x, ch) ==
     /\ WithData /\ Idle /\ s.nops < MaxOps /\ s.hasSess[x][ch] /\ s.reading[x][ch] = "paused"
@@ -118,22 +185,16 @@ Resume(x, ch) ==
 \* _close_send if still open for sending, then _discard_recv.
 Close(x, ch, how) ==
     /\ Idle /\ s.nops < MaxOps /\ s.reg[x][ch] /\ s.hasSess[x][ch]
-    /\ s.ss[x][ch] \in {"open", "eof"} \/ s.rs[x][ch] = "close_pending"
-    /\ Op([s EXCEPT !.net[x] = Out(x, CloseMsgs(x, ch)),
-                    !.ss[x][ch] = "closed",
-                    !.rbufN[x][ch] = 0,
-                    \* _discard_recv (only if the receive side is not closed yet):
-                    \* buffer dropped and _recv_paused = False, even if reading never started
-                    !.reading[x][ch] = IF s.rs[x][ch] # "closed" THEN "reading" ELSE @,
-                    !.rs[x][ch] = IF @ = "close_pending" THEN "closed" ELSE @,
-                    !.ready = IF s.rs[x][ch] = "close_pending"
-                              THEN Append(@, <<x, "chan", ch>>) ELSE @],
-          <<how, x, ch, Pre(x, ch)>>)
+    /\ s.ss[x][ch] \in {"open", "eof_pending", "eof"} \/ s.rs[x][ch] = "close_pending"
+    /\ Op(CloseT([s EXCEPT !.closeReq[x][ch] = TRUE], x, ch, how), <<how, x, ch, Pre(x, ch)>>)
 
 \* conn.close(): close every channel, DISCONNECT, _force_close
 ConnClose(x) ==
     /\ ConnOps /\ Idle /\ s.nops < MaxOps /\ s.up[x]
-    /\ LET closing == {c \in Chans : s.reg[x][c] /\ s.ss[x][c] \in {"open", "eof"}}
+    /\ LET closing == {c \in Chans : s.reg[x][c] /\ s.ss[x][c] \in {"open", "eof_pending", "eof"}
+                                     /\ s.sbufN[x][c] = 0}
+           held == {c \in Chans : s.reg[x][c] /\ s.ss[x][c] \in {"open", "eof_pending", "eof"}
+                                  /\ s.sbufN[x][c] > 0}   \* close(): CLOSE waits for the unsent data
            cp == {c \in Chans : s.reg[x][c] /\ s.rs[x][c] = "close_pending"}
            \* channels are visited in the order they were registered
            oc == SelectSeq(s.ord[x], LAMBDA c : c \in closing)
@@ -142,7 +203,8 @@ ConnClose(x) ==
                    <<Msg("DISC", 0), Msg("LOST", 0)>>
            touched == {c \in Chans : s.reg[x][c]}
        IN Op([s EXCEPT !.net[x] = @ \o msgs,
-                       !.ss[x] = [c \in Chans |-> IF c \in closing THEN "closed" ELSE @[c]],
+                       !.ss[x] = [c \in Chans |-> IF c \in closing THEN "closed"
+                                                   ELSE IF c \in held THEN "close_pending" ELSE @[c]],
                        !.rbufN[x] = [c \in Chans |-> IF c \in touched THEN 0 ELSE @[c]],
                        !.reading[x] = [c \in Chans |-> IF c \in touched /\ s.rs[x][c] # "closed"
                                                        THEN "reading" ELSE @[c]],
@@ -199,6 +261,7 @@ Deliver(x) ==
              ELSE IF t = "CONF" THEN
                   IF s.openW[ch] = "pending" /\ regd
                   THEN [s0 EXCEPT !.openW[ch] = "ok", !.ss[y][ch] = "open", !.rs[y][ch] = "open",
+                                  !.swin[y][ch] = Win, !.rwin[y][ch] = Win,
                                   !.ready = Append(@, <<y, "afteropen", ch>>)]
                   ELSE ProtoErr(s0, y)
              ELSE IF t = "FAIL" THEN
@@ -210,7 +273,10 @@ Deliver(x) ==
                   \* server: exec request -> session_started, resume_reading (flush)
                   IF regd /\ s.rs[y][ch] \in {"open", "eof_pending", "eof"}
                   THEN LET s1 == [s0 EXCEPT
-                                    !.net[y] = IF s.ss[y][ch] # "closed" THEN Append(@, Msg("SUCC", ch)) ELSE @,
+                                    \* the reply goes out as long as the own CLOSE has not
+                                    !.net[y] = IF s.ss[y][ch] = "closed" \/
+                                                  (FlowVariant = "no_reply_closing" /\ s.ss[y][ch] = "close_pending")
+                                               THEN @ ELSE Append(@, Msg("SUCC", ch)),
                                     !.log[y][ch] = Logged(y, ch, <<"session_started">>),
                                     !.reading[y][ch] = "reading"]
                        IN IF s.reading[y][ch] = "starting" THEN Flushed(s1, y, ch) ELSE s1
@@ -221,10 +287,19 @@ Deliver(x) ==
                   ELSE ProtoErr(s0, y)
              ELSE IF t = "DATA" THEN
                   IF regd /\ s.rs[y][ch] = "open"
-                  THEN IF s.ss[y][ch] = "closed" THEN s0     \* dropped: channel closed by the session
+                  THEN IF s.ss[y][ch] \in {"close_pending", "closed"}
+                       THEN s0     \* dropped: channel closed by the session
                        ELSE IF s.reading[y][ch] = "reading"
-                       THEN [s0 EXCEPT !.log[y][ch] = Logged(y, ch, <<"data_received">>)]
+                       THEN Consumed([s0 EXCEPT !.log[y][ch] = Logged(y, ch, <<"data_received">>)],
+                                     y, ch, 1)
                        ELSE [s0 EXCEPT !.rbufN[y][ch] = @ + 1]
+                  ELSE ProtoErr(s0, y)
+             ELSE IF t = "ADJ" THEN
+                  \* _process_window_adjust: about OUR sending direction, so legal whatever
+                  \* the peer has done to its own (EOF sent, still buffered here or not)
+                  IF regd /\ s.rs[y][ch] \in (IF FlowVariant = "adj_open_only" THEN {"open"}
+                                               ELSE {"open", "eof_pending", "eof"})
+                  THEN FlushSend([s0 EXCEPT !.swin[y][ch] = @ + m.n], y, ch)
                   ELSE ProtoErr(s0, y)
              ELSE IF t = "EOF" THEN
                   IF regd /\ s.rs[y][ch] = "open"
@@ -239,7 +314,7 @@ Deliver(x) ==
                        \* requests still outstanding are failed (no reply can follow a CLOSE);
                        \* FailReqOnClose = FALSE is the pre-repair behaviour
                        LET sA == [s0 EXCEPT !.net[y] = @ \o CloseMsgs(y, ch),
-                                            !.ss[y][ch] = "closed"]
+                                            !.ss[y][ch] = "closed", !.sbufN[y][ch] = 0]
                            s1 == IF FailReqOnClose /\ y = "c" /\ s.reqW[ch] = "pending"
                                  THEN [sA EXCEPT !.reqW[ch] = "false",
                                                  !.ready = Append(@, <<"c", "afterreq", ch>>)]
@@ -282,6 +357,7 @@ RunReady ==
                 IF s.reg[x][ch] /\ ~s.connClosed[x]
                 THEN [s0 EXCEPT !.net[x] = Out(x, <<Msg("CONF", ch)>>),
                                 !.ss[x][ch] = "open", !.rs[x][ch] = "open",
+                                !.swin[x][ch] = Win, !.rwin[x][ch] = Win,
                                 !.hasSess[x][ch] = TRUE,
                                 !.log[x][ch] = Append(@, "connection_made")]
                 ELSE [s0 EXCEPT !.ready = Append(@, <<x, "chan", ch>>)]
@@ -308,14 +384,9 @@ RunReady ==
                                 !.log[x][ch] = Logged(x, ch, <<"session_started">>),
                                 !.ready = Append(@, <<x, "startread", ch>>)]
                 ELSE \* request failed: close(), ChannelOpenError
-                     [s0 EXCEPT !.phase[ch] = "failed", !.createW[ch] = "err",
-                                !.net[x] = Out(x, CloseMsgs(x, ch)),
-                                !.ss[x][ch] = IF s.reg[x][ch] THEN "closed" ELSE @,
-                                !.rbufN[x][ch] = 0,
-                                !.reading[x][ch] = IF s.reg[x][ch] /\ s.rs[x][ch] # "closed" THEN "reading" ELSE @,
-                                !.rs[x][ch] = IF @ = "close_pending" THEN "closed" ELSE @,
-                                !.ready = IF s.rs[x][ch] = "close_pending" /\ s.reg[x][ch]
-                                          THEN Append(@, <<x, "chan", ch>>) ELSE @]
+                     LET s1 == [s0 EXCEPT !.phase[ch] = "failed", !.createW[ch] = "err"]
+                     IN IF s.reg[x][ch] THEN CloseT(s1, x, ch, "close")
+                        ELSE [s1 EXCEPT !.rbufN[x][ch] = 0]
              ELSE IF k = "startread" THEN
                 \* _start_reading: leave 'starting' and flush
                 IF s.reading[x][ch] = "starting"
@@ -329,6 +400,7 @@ RunReady ==
                     s1 == [s0 EXCEPT !.connClosed[x] = TRUE,
                                      !.ownerLost[x] = IF s.connClosed[x] THEN @ ELSE @ + 1,
                                      !.ss[x] = [c \in Chans |-> IF c \in chs THEN "closed" ELSE @[c]],
+                                     !.sbufN[x] = [c \in Chans |-> IF c \in chs THEN 0 ELSE @[c]],
                                      !.log[x] = [c \in Chans |-> IF c \in chs /\ s.hasSess[x][c]
                                                                  THEN Append(@[c], "connection_lost") ELSE @[c]],
                                      !.hasSess[x] = [c \in Chans |-> IF c \in chs THEN FALSE ELSE @[c]],
@@ -396,5 +468,23 @@ EmitScript == (Quiescent /\ s.nops >= 3) => PrintT(ToString(<<"SCRIPT", script, 
 \* witnesses
 NeverStarted == \A ch \in Chans : s.phase[ch] # "started"
 NeverErr == \A ch \in Chans : s.createW[ch] # "err"
+\* no protocol error between two honest endpoints
+HonestNoError == (Cuts = 0 /\ ~ConnOps) => \A x \in Sides : s.up[x]
+\* flow control never wedges: at quiescence unsent data (and the EOF / CLOSE queued behind it)
+\* is only ever waiting for a peer that is not consuming
+NoWedge == Quiescent => \A x \in Sides, ch \in Chans :
+    (s.reg[x][ch] /\ (s.sbufN[x][ch] > 0 \/ s.ss[x][ch] \in {"eof_pending", "close_pending"})) =>
+        LET y == Other(x) IN
+        \/ ~s.up[x] \/ ~s.up[y]
+        \/ s.reading[y][ch] # "reading"
+        \/ s.ss[y][ch] \in {"close_pending", "closed"} \/ ~s.reg[y][ch]
+\* a close() is carried out: once nothing is in flight the CLOSE has gone out, unless the unsent
+\* data in front of it is waiting for a peer that is not consuming
+Consuming(y, ch) == s.reg[y][ch] /\ s.reading[y][ch] = "reading" /\ s.ss[y][ch] \notin {"close_pending", "closed"}
+CloseCompletes == Quiescent => \A x \in Sides, ch \in Chans :
+    (s.closeReq[x][ch] /\ s.reg[x][ch] /\ s.up[x] /\ s.up[Other(x)] /\ Consuming(Other(x), ch))
+        => s.ss[x][ch] = "closed"
+NeverSendPending == \A x \in Sides, ch \in Chans : s.ss[x][ch] \notin {"eof_pending", "close_pending"}
+NeverAdjAfterEof == ~(lbl[1] = "deliver" /\ lbl[3] = "ADJ" /\ s.rs[Other(lbl[2])][lbl[4]] \in {"eof", "eof_pending"})
 NeverClosePending == \A x \in Sides, ch \in Chans : s.rs[x][ch] # "close_pending"
 =============================================================================
